@@ -376,3 +376,54 @@ def h_support_lookalike_int(ctx):
         w.oblige(f'exist({first}) quantifies the bits of {first} only ({tag})',
                  spec.equiv(w, w.term(r), spec.exists(w.zs(a_bits), w.term(u))))
     w.canary('lookalike canary', z3.BoolVal(False))
+
+
+def wide_enumeration(backend):
+    """BOUNDED: enumeration, counting, picking, substitution of values and
+    support on variables of 11 and 12 bits (bit names x_10, x_11 sort before
+    x_2 as strings)."""
+    def run():
+        import dd.autoref as autoref
+        fails = list()
+        n = 0
+        c = fol.Context()
+        if backend == 'autoref':
+            c.bdd = autoref.BDD()
+        c.declare(x=(0, 2047), y=(-1200, 1500), b='bool')
+        cases = [
+            ('x >= 1024', ['x'], lambda a: a['x'] >= 1024),
+            (r'(x = 1030) \/ (x = 5) \/ (x = 4)', ['x'], lambda a: a['x'] in (1030, 5, 4)),
+            (r'(x \in 1000..1100) /\ b', ['x', 'b'], lambda a: 1000 <= a['x'] <= 1100 and a['b']),
+            ('y < -1024', ['y'], lambda a: a['y'] < -1024),
+            (r'(y = -1025) \/ (y = 1027) \/ (y = 4)', ['y'], lambda a: a['y'] in (-1025, 1027, 4)),
+            (r'(x = 1024) /\ (y = -2048 \/ y = 2047 \/ y = -1)', ['x', 'y'], lambda a: a['x'] == 1024 and a['y'] in (-2048, 2047, -1)),
+        ]
+        doms = dict(x=range(0, 2048), y=range(-2048, 2048), b=[False, True])
+        for fml, over, sem in cases:
+            n += 1
+            u = c.add_expr(fml)
+            if set(c.support(u)) != set(over):
+                fails.append(dict(name='support of a predicate over wide variables', formula=fml, got=sorted(c.support(u)), backend=backend))
+            want = [dict(zip(over, vals)) for vals in itertools.product(*[doms[k] for k in over]) if sem(dict(zip(over, vals)))] \
+                if len(over) == 1 or 'b' in over else \
+                [dict(x=1024, y=v) for v in (-2048, 2047, -1)]
+            key = lambda a: sorted(a.items())
+            try:
+                got = list(c.pick_iter(u, care_vars=over))
+                cnt = c.count(u, care_vars=over)
+            except Exception as e:
+                fails.append(dict(name='pick_iter / count run on wide variables', formula=fml, error=repr(e)[:160], backend=backend))
+                continue
+            if sorted(map(key, got)) != sorted(map(key, want)) or cnt != len(want):
+                if len(fails) < 6:
+                    fails.append(dict(name='pick_iter yields exactly the satisfying assignments and count their number (variables of 11 and 12 bits)',
+                                      formula=fml, expected=len(want), yielded=len(got), count=int(cnt),
+                                      first_wrong=str(sorted(set(map(str, got)) ^ set(map(str, want)))[:3]), backend=backend))
+            # substitution of values: let(values) agrees with the semantics at sampled points
+            for a in want[:3] + [dict(zip(over, [doms[k][0] for k in over])), dict(zip(over, [doms[k][-1] for k in over]))]:
+                n += 1
+                r = c.let(a, u)
+                if (r == c.true) != bool(sem(a)) and len(fails) < 6:
+                    fails.append(dict(name='let(values) on wide variables', formula=fml, values=str(a), backend=backend))
+        return dict(records=[], stats=dict(), functions={}, bounded=dict(evaluations=n, backend=backend, failures=fails[:6]))
+    return run
